@@ -35,6 +35,7 @@ const (
 	bPassResult  // check: explicit pass result
 	bBlockNew    // check: block with a freshly allocated result
 	bBlockPooled // check: block by resetting the context's pooled result (what the library's own slots do)
+	bShouldWait // check: "should wait" result (not a block: the chain goes on to the later slots)
 	bPanicPassed
 	bPanicBlocked
 	bPanicCompleted
@@ -63,6 +64,8 @@ func (s *slot) Check(ctx *base.EntryContext) *base.TokenResult {
 	switch beh(ctx, s) {
 	case bPassResult:
 		return base.NewTokenResultPass()
+	case bShouldWait:
+		return base.NewTokenResultShouldWait(0)
 	case bBlockNew:
 		return base.NewTokenResultBlockedWithCause(base.BlockType(10+len(s.name)), "msg-"+s.name, &rule{s.name}, s.name)
 	case bBlockPooled:
@@ -166,7 +169,7 @@ func TestChain(t *testing.T) {
 				case 0:
 					row[i] = rapid.SampledFrom([]int{bOK, bOK, bOK, bOK, bPanic}).Draw(t, "beh")
 				case 1:
-					row[i] = rapid.SampledFrom([]int{bOK, bOK, bPassResult, bBlockNew, bBlockPooled, bPanic}).Draw(t, "beh")
+					row[i] = rapid.SampledFrom([]int{bOK, bOK, bPassResult, bShouldWait, bBlockNew, bBlockPooled, bPanic}).Draw(t, "beh")
 				case 2:
 					row[i] = rapid.SampledFrom([]int{bOK, bOK, bOK, bOK, bPanicPassed, bPanicBlocked, bPanicCompleted}).Draw(t, "beh")
 				}
